@@ -44,8 +44,14 @@ Record cfg := mkCfg {
   chanb : bool;       (* DistributorChannel(make(chan T)) *)
   dcap : option nat;  (* capacity of the buffer back-end; None = unlimited *)
   dpol : policy;
-  sigbuf : bool       (* Stats' signal channel is buffered (the repaired code); false = the original *)
+  sigbuf : bool;      (* Stats' signal channel is buffered (the repaired code); false = the original *)
+  inmod : nat;        (* Distributor.WithInputFilter: ids divisible by inmod are rejected (0 = no filter) *)
+  outmod : nat;       (* Distributor.WithOutputFilter: likewise on the Receive side *)
+  skipstop : bool     (* a worker returns when Receive yields ErrCurrentOpSkip (the original code);
+                         false = it continues with the next Receive (the repaired code) *)
 }.
+
+Definition passes (k : nat) (m : nat) : bool := Nat.eqb k 0 || negb (Nat.eqb (Nat.modulo m k) 0).
 
 Definition nw (c : cfg) : nat := Nat.max 1 (W c).
 
@@ -76,53 +82,56 @@ Record state := mkState {
   taken : list msg;
   done : list msg;
   evicted : list msg;
-  dropped : list msg
+  dropped : list msg;
+  skipped : list msg
 }.
 
 Definition set_live (x : bool) (st : state) : state :=
-  mkState x (loop st) (subs st) (subq st) (unsubq st) (dist st) (wk st) (ch st) (rcv st) (call st) (cctx st) (sigready st) (pubd st) (issued st) (created st) (unsubcalled st) (owed st) (acc st) (taken st) (done st) (evicted st) (dropped st).
+  mkState x (loop st) (subs st) (subq st) (unsubq st) (dist st) (wk st) (ch st) (rcv st) (call st) (cctx st) (sigready st) (pubd st) (issued st) (created st) (unsubcalled st) (owed st) (acc st) (taken st) (done st) (evicted st) (dropped st) (skipped st).
 Definition set_loop (x : lpc) (st : state) : state :=
-  mkState (live st) x (subs st) (subq st) (unsubq st) (dist st) (wk st) (ch st) (rcv st) (call st) (cctx st) (sigready st) (pubd st) (issued st) (created st) (unsubcalled st) (owed st) (acc st) (taken st) (done st) (evicted st) (dropped st).
+  mkState (live st) x (subs st) (subq st) (unsubq st) (dist st) (wk st) (ch st) (rcv st) (call st) (cctx st) (sigready st) (pubd st) (issued st) (created st) (unsubcalled st) (owed st) (acc st) (taken st) (done st) (evicted st) (dropped st) (skipped st).
 Definition set_subs (x : list sid) (st : state) : state :=
-  mkState (live st) (loop st) x (subq st) (unsubq st) (dist st) (wk st) (ch st) (rcv st) (call st) (cctx st) (sigready st) (pubd st) (issued st) (created st) (unsubcalled st) (owed st) (acc st) (taken st) (done st) (evicted st) (dropped st).
+  mkState (live st) (loop st) x (subq st) (unsubq st) (dist st) (wk st) (ch st) (rcv st) (call st) (cctx st) (sigready st) (pubd st) (issued st) (created st) (unsubcalled st) (owed st) (acc st) (taken st) (done st) (evicted st) (dropped st) (skipped st).
 Definition set_subq (x : list sid) (st : state) : state :=
-  mkState (live st) (loop st) (subs st) x (unsubq st) (dist st) (wk st) (ch st) (rcv st) (call st) (cctx st) (sigready st) (pubd st) (issued st) (created st) (unsubcalled st) (owed st) (acc st) (taken st) (done st) (evicted st) (dropped st).
+  mkState (live st) (loop st) (subs st) x (unsubq st) (dist st) (wk st) (ch st) (rcv st) (call st) (cctx st) (sigready st) (pubd st) (issued st) (created st) (unsubcalled st) (owed st) (acc st) (taken st) (done st) (evicted st) (dropped st) (skipped st).
 Definition set_unsubq (x : list sid) (st : state) : state :=
-  mkState (live st) (loop st) (subs st) (subq st) x (dist st) (wk st) (ch st) (rcv st) (call st) (cctx st) (sigready st) (pubd st) (issued st) (created st) (unsubcalled st) (owed st) (acc st) (taken st) (done st) (evicted st) (dropped st).
+  mkState (live st) (loop st) (subs st) (subq st) x (dist st) (wk st) (ch st) (rcv st) (call st) (cctx st) (sigready st) (pubd st) (issued st) (created st) (unsubcalled st) (owed st) (acc st) (taken st) (done st) (evicted st) (dropped st) (skipped st).
 Definition set_dist (x : list msg) (st : state) : state :=
-  mkState (live st) (loop st) (subs st) (subq st) (unsubq st) x (wk st) (ch st) (rcv st) (call st) (cctx st) (sigready st) (pubd st) (issued st) (created st) (unsubcalled st) (owed st) (acc st) (taken st) (done st) (evicted st) (dropped st).
+  mkState (live st) (loop st) (subs st) (subq st) (unsubq st) x (wk st) (ch st) (rcv st) (call st) (cctx st) (sigready st) (pubd st) (issued st) (created st) (unsubcalled st) (owed st) (acc st) (taken st) (done st) (evicted st) (dropped st) (skipped st).
 Definition set_wk (x : nat -> wpc) (st : state) : state :=
-  mkState (live st) (loop st) (subs st) (subq st) (unsubq st) (dist st) x (ch st) (rcv st) (call st) (cctx st) (sigready st) (pubd st) (issued st) (created st) (unsubcalled st) (owed st) (acc st) (taken st) (done st) (evicted st) (dropped st).
+  mkState (live st) (loop st) (subs st) (subq st) (unsubq st) (dist st) x (ch st) (rcv st) (call st) (cctx st) (sigready st) (pubd st) (issued st) (created st) (unsubcalled st) (owed st) (acc st) (taken st) (done st) (evicted st) (dropped st) (skipped st).
 Definition set_ch (x : sid -> list msg) (st : state) : state :=
-  mkState (live st) (loop st) (subs st) (subq st) (unsubq st) (dist st) (wk st) x (rcv st) (call st) (cctx st) (sigready st) (pubd st) (issued st) (created st) (unsubcalled st) (owed st) (acc st) (taken st) (done st) (evicted st) (dropped st).
+  mkState (live st) (loop st) (subs st) (subq st) (unsubq st) (dist st) (wk st) x (rcv st) (call st) (cctx st) (sigready st) (pubd st) (issued st) (created st) (unsubcalled st) (owed st) (acc st) (taken st) (done st) (evicted st) (dropped st) (skipped st).
 Definition set_rcv (x : sid -> list msg) (st : state) : state :=
-  mkState (live st) (loop st) (subs st) (subq st) (unsubq st) (dist st) (wk st) (ch st) x (call st) (cctx st) (sigready st) (pubd st) (issued st) (created st) (unsubcalled st) (owed st) (acc st) (taken st) (done st) (evicted st) (dropped st).
+  mkState (live st) (loop st) (subs st) (subq st) (unsubq st) (dist st) (wk st) (ch st) x (call st) (cctx st) (sigready st) (pubd st) (issued st) (created st) (unsubcalled st) (owed st) (acc st) (taken st) (done st) (evicted st) (dropped st) (skipped st).
 Definition set_call (x : nat -> cpc) (st : state) : state :=
-  mkState (live st) (loop st) (subs st) (subq st) (unsubq st) (dist st) (wk st) (ch st) (rcv st) x (cctx st) (sigready st) (pubd st) (issued st) (created st) (unsubcalled st) (owed st) (acc st) (taken st) (done st) (evicted st) (dropped st).
+  mkState (live st) (loop st) (subs st) (subq st) (unsubq st) (dist st) (wk st) (ch st) (rcv st) x (cctx st) (sigready st) (pubd st) (issued st) (created st) (unsubcalled st) (owed st) (acc st) (taken st) (done st) (evicted st) (dropped st) (skipped st).
 Definition set_cctx (x : nat -> bool) (st : state) : state :=
-  mkState (live st) (loop st) (subs st) (subq st) (unsubq st) (dist st) (wk st) (ch st) (rcv st) (call st) x (sigready st) (pubd st) (issued st) (created st) (unsubcalled st) (owed st) (acc st) (taken st) (done st) (evicted st) (dropped st).
+  mkState (live st) (loop st) (subs st) (subq st) (unsubq st) (dist st) (wk st) (ch st) (rcv st) (call st) x (sigready st) (pubd st) (issued st) (created st) (unsubcalled st) (owed st) (acc st) (taken st) (done st) (evicted st) (dropped st) (skipped st).
 Definition set_sigready (x : nat -> bool) (st : state) : state :=
-  mkState (live st) (loop st) (subs st) (subq st) (unsubq st) (dist st) (wk st) (ch st) (rcv st) (call st) (cctx st) x (pubd st) (issued st) (created st) (unsubcalled st) (owed st) (acc st) (taken st) (done st) (evicted st) (dropped st).
+  mkState (live st) (loop st) (subs st) (subq st) (unsubq st) (dist st) (wk st) (ch st) (rcv st) (call st) (cctx st) x (pubd st) (issued st) (created st) (unsubcalled st) (owed st) (acc st) (taken st) (done st) (evicted st) (dropped st) (skipped st).
 Definition set_pubd (x : list msg) (st : state) : state :=
-  mkState (live st) (loop st) (subs st) (subq st) (unsubq st) (dist st) (wk st) (ch st) (rcv st) (call st) (cctx st) (sigready st) x (issued st) (created st) (unsubcalled st) (owed st) (acc st) (taken st) (done st) (evicted st) (dropped st).
+  mkState (live st) (loop st) (subs st) (subq st) (unsubq st) (dist st) (wk st) (ch st) (rcv st) (call st) (cctx st) (sigready st) x (issued st) (created st) (unsubcalled st) (owed st) (acc st) (taken st) (done st) (evicted st) (dropped st) (skipped st).
 Definition set_issued (x : list msg) (st : state) : state :=
-  mkState (live st) (loop st) (subs st) (subq st) (unsubq st) (dist st) (wk st) (ch st) (rcv st) (call st) (cctx st) (sigready st) (pubd st) x (created st) (unsubcalled st) (owed st) (acc st) (taken st) (done st) (evicted st) (dropped st).
+  mkState (live st) (loop st) (subs st) (subq st) (unsubq st) (dist st) (wk st) (ch st) (rcv st) (call st) (cctx st) (sigready st) (pubd st) x (created st) (unsubcalled st) (owed st) (acc st) (taken st) (done st) (evicted st) (dropped st) (skipped st).
 Definition set_created (x : list sid) (st : state) : state :=
-  mkState (live st) (loop st) (subs st) (subq st) (unsubq st) (dist st) (wk st) (ch st) (rcv st) (call st) (cctx st) (sigready st) (pubd st) (issued st) x (unsubcalled st) (owed st) (acc st) (taken st) (done st) (evicted st) (dropped st).
+  mkState (live st) (loop st) (subs st) (subq st) (unsubq st) (dist st) (wk st) (ch st) (rcv st) (call st) (cctx st) (sigready st) (pubd st) (issued st) x (unsubcalled st) (owed st) (acc st) (taken st) (done st) (evicted st) (dropped st) (skipped st).
 Definition set_unsubcalled (x : list sid) (st : state) : state :=
-  mkState (live st) (loop st) (subs st) (subq st) (unsubq st) (dist st) (wk st) (ch st) (rcv st) (call st) (cctx st) (sigready st) (pubd st) (issued st) (created st) x (owed st) (acc st) (taken st) (done st) (evicted st) (dropped st).
+  mkState (live st) (loop st) (subs st) (subq st) (unsubq st) (dist st) (wk st) (ch st) (rcv st) (call st) (cctx st) (sigready st) (pubd st) (issued st) (created st) x (owed st) (acc st) (taken st) (done st) (evicted st) (dropped st) (skipped st).
 Definition set_owed (x : sid -> list msg) (st : state) : state :=
-  mkState (live st) (loop st) (subs st) (subq st) (unsubq st) (dist st) (wk st) (ch st) (rcv st) (call st) (cctx st) (sigready st) (pubd st) (issued st) (created st) (unsubcalled st) x (acc st) (taken st) (done st) (evicted st) (dropped st).
+  mkState (live st) (loop st) (subs st) (subq st) (unsubq st) (dist st) (wk st) (ch st) (rcv st) (call st) (cctx st) (sigready st) (pubd st) (issued st) (created st) (unsubcalled st) x (acc st) (taken st) (done st) (evicted st) (dropped st) (skipped st).
 Definition set_acc (x : list msg) (st : state) : state :=
-  mkState (live st) (loop st) (subs st) (subq st) (unsubq st) (dist st) (wk st) (ch st) (rcv st) (call st) (cctx st) (sigready st) (pubd st) (issued st) (created st) (unsubcalled st) (owed st) x (taken st) (done st) (evicted st) (dropped st).
+  mkState (live st) (loop st) (subs st) (subq st) (unsubq st) (dist st) (wk st) (ch st) (rcv st) (call st) (cctx st) (sigready st) (pubd st) (issued st) (created st) (unsubcalled st) (owed st) x (taken st) (done st) (evicted st) (dropped st) (skipped st).
 Definition set_taken (x : list msg) (st : state) : state :=
-  mkState (live st) (loop st) (subs st) (subq st) (unsubq st) (dist st) (wk st) (ch st) (rcv st) (call st) (cctx st) (sigready st) (pubd st) (issued st) (created st) (unsubcalled st) (owed st) (acc st) x (done st) (evicted st) (dropped st).
+  mkState (live st) (loop st) (subs st) (subq st) (unsubq st) (dist st) (wk st) (ch st) (rcv st) (call st) (cctx st) (sigready st) (pubd st) (issued st) (created st) (unsubcalled st) (owed st) (acc st) x (done st) (evicted st) (dropped st) (skipped st).
 Definition set_done (x : list msg) (st : state) : state :=
-  mkState (live st) (loop st) (subs st) (subq st) (unsubq st) (dist st) (wk st) (ch st) (rcv st) (call st) (cctx st) (sigready st) (pubd st) (issued st) (created st) (unsubcalled st) (owed st) (acc st) (taken st) x (evicted st) (dropped st).
+  mkState (live st) (loop st) (subs st) (subq st) (unsubq st) (dist st) (wk st) (ch st) (rcv st) (call st) (cctx st) (sigready st) (pubd st) (issued st) (created st) (unsubcalled st) (owed st) (acc st) (taken st) x (evicted st) (dropped st) (skipped st).
 Definition set_evicted (x : list msg) (st : state) : state :=
-  mkState (live st) (loop st) (subs st) (subq st) (unsubq st) (dist st) (wk st) (ch st) (rcv st) (call st) (cctx st) (sigready st) (pubd st) (issued st) (created st) (unsubcalled st) (owed st) (acc st) (taken st) (done st) x (dropped st).
+  mkState (live st) (loop st) (subs st) (subq st) (unsubq st) (dist st) (wk st) (ch st) (rcv st) (call st) (cctx st) (sigready st) (pubd st) (issued st) (created st) (unsubcalled st) (owed st) (acc st) (taken st) (done st) x (dropped st) (skipped st).
 Definition set_dropped (x : list msg) (st : state) : state :=
-  mkState (live st) (loop st) (subs st) (subq st) (unsubq st) (dist st) (wk st) (ch st) (rcv st) (call st) (cctx st) (sigready st) (pubd st) (issued st) (created st) (unsubcalled st) (owed st) (acc st) (taken st) (done st) (evicted st) x.
+  mkState (live st) (loop st) (subs st) (subq st) (unsubq st) (dist st) (wk st) (ch st) (rcv st) (call st) (cctx st) (sigready st) (pubd st) (issued st) (created st) (unsubcalled st) (owed st) (acc st) (taken st) (done st) (evicted st) x (skipped st).
+Definition set_skipped (x : list msg) (st : state) : state :=
+  mkState (live st) (loop st) (subs st) (subq st) (unsubq st) (dist st) (wk st) (ch st) (rcv st) (call st) (cctx st) (sigready st) (pubd st) (issued st) (created st) (unsubcalled st) (owed st) (acc st) (taken st) (done st) (evicted st) (dropped st) x.
 
 Definition upd {A} (f : nat -> A) (k : nat) (v : A) : nat -> A := fun x => if Nat.eqb x k then v else f x.
 Definition memb (x : nat) (l : list nat) : bool := existsb (Nat.eqb x) l.
@@ -166,7 +175,9 @@ Inductive event :=
 | EDropSend (w : nat) (s : sid) (* sendMsg: <-ctx.Done() *)
 | EEnd (w : nat)                (* dispatchMessage returns *)
 | EWExit (w : nat)              (* dist.Receive returns an error *)
-| ERecv (s : sid).              (* the subscriber receives from its (buffered) channel *)
+| ERecv (s : sid)               (* the subscriber receives from its (buffered) channel *)
+| ELoopFilter                   (* dist.Send: the input filter rejects the message (Send returns nil) *)
+| ESkip (w : nat).              (* dist.Receive: the output filter rejects the item (ErrCurrentOpSkip) *)
 
 (* environment events; everything else is a step of the broker or of a call already in progress *)
 Definition internal (e : event) : bool :=
@@ -174,7 +185,7 @@ Definition internal (e : event) : bool :=
 
 Definition init : state :=
   mkState true LIdle [] [] [] [] (fun _ => WIdle) (fun _ => []) (fun _ => []) (fun _ => CIdle)
-          (fun _ => true) (fun _ => false) [] [] [] [] (fun _ => []) [] [] [] [] [].
+          (fun _ => true) (fun _ => false) [] [] [] [] (fun _ => []) [] [] [] [] [] [].
 
 Definition owe (st : state) (m : msg) : sid -> list msg :=
   fun s => if memb s (subs st) && negb (memb s (unsubcalled st)) then owed st s ++ [m] else owed st s.
@@ -275,6 +286,7 @@ Definition step (st : state) (e : event) : option state :=
       if chanb c then None
       else match loop st with
            | LSend m =>
+               if negb (passes (inmod c) m) then None else
                if room c (dist st)
                then Some (set_loop LIdle (set_dist (dist st ++ [m]) (set_acc (acc st ++ [m]) st)))
                else match dpol c with
@@ -315,13 +327,19 @@ Definition step (st : state) (e : event) : option state :=
            | WIdle =>
                if chanb c
                then match loop st with
-                    | LSend m => Some (set_loop LIdle (set_acc (acc st ++ [m]) (set_taken (taken st ++ [m])
+                    | LSend m =>
+                        if passes (inmod c) m && passes (outmod c) m
+                        then Some (set_loop LIdle (set_acc (acc st ++ [m]) (set_taken (taken st ++ [m])
                                       (set_wk (upd (wk st) w (WBusy m true [] (subs st) [])) st))))
+                        else None
                     | _ => None
                     end
                else match dist st with
-                    | m :: d => Some (set_dist d (set_taken (taken st ++ [m])
+                    | m :: d =>
+                        if passes (outmod c) m
+                        then Some (set_dist d (set_taken (taken st ++ [m])
                                      (set_wk (upd (wk st) w (WBusy m true [] (subs st) [])) st)))
+                        else None
                     | [] => None
                     end
            | _ => None
@@ -396,6 +414,35 @@ Definition step (st : state) (e : event) : option state :=
       | m :: r => Some (set_ch (upd (ch st) s r) (set_rcv (upd (rcv st) s (rcv st s ++ [m])) st))
       | [] => None
       end
+  | ELoopFilter =>
+      match loop st with
+      | LSend m => if passes (inmod c) m then None
+                   else Some (set_loop LIdle (set_dropped (dropped st ++ [m]) st))
+      | _ => None
+      end
+  | ESkip w =>
+      if Nat.ltb w (nw c)
+      then match wk st w with
+           | WIdle =>
+               if chanb c
+               then match loop st with
+                    | LSend m =>
+                        if passes (inmod c) m && negb (passes (outmod c) m)
+                        then Some (set_loop LIdle (set_acc (acc st ++ [m]) (set_skipped (skipped st ++ [m])
+                                  (set_wk (upd (wk st) w (if skipstop c then WDone else WIdle)) st))))
+                        else None
+                    | _ => None
+                    end
+               else match dist st with
+                    | m :: d =>
+                        if passes (outmod c) m then None
+                        else Some (set_dist d (set_skipped (skipped st ++ [m])
+                                  (set_wk (upd (wk st) w (if skipstop c then WDone else WIdle)) st)))
+                    | [] => None
+                    end
+           | _ => None
+           end
+      else None
   end.
 
 Fixpoint run (st : state) (es : list event) : option state :=
